@@ -90,3 +90,24 @@ CHECKS["C09"] = {
     "assumptions": ["idRangeOffset values even; last segment ends at 0xFFFF (format requirement)", "lookups whose glyphIdArray address lies outside the subtable are undefined by the specification and excluded",
                     "Format4 maps hold non-zero glyph ids (glyph 0 = unmapped)", "glyph ids above 0xFFFF in format 12 are not representable"],
 }
+
+CHECKS["C12"] = {
+    "harnesses": [
+        H("hmtx", "c12.go", "VerifH_C12_hmtx", ["decoded", "compressed or not"],
+          quick={"params": {"maxglyphs": 2}, "timeout": 280}, thorough={"params": {"maxglyphs": 3}, "timeout": 2400}),
+        H("hmtx", "c12.go", "VerifH_C12_hmtx_bytes", ["accepted"],
+          quick={"params": {"maxhmtx": 8}, "timeout": 280}, thorough={"params": {"maxhmtx": 16}, "timeout": 2400}),
+        H("head", "c12.go", "VerifH_C12_head", ["read"], quick={"timeout": 200}),
+        H("head", "c12.go", "VerifH_C12_head_bytes", ["accepted"], quick={"timeout": 200}),
+        H("maxp", "c12.go", "VerifH_C12_maxp", ["read"], quick={"timeout": 100}),
+        H("maxp", "c12.go", "VerifH_C12_maxp_bytes", ["accepted"], quick={"timeout": 200}),
+        H("os2", "c12.go", "VerifH_C12_os2", ["read"], quick={"timeout": 280}),
+        H("os2", "c12.go", "VerifH_C12_os2_bytes", ["accepted"], quick={"timeout": 280}),
+        H("post", "c12.go", "VerifH_C12_post", ["read"], quick={"timeout": 200}),
+        H("post", "c12.go", "VerifH_C12_post_bytes", ["accepted"], quick={"timeout": 200}),
+    ],
+    "bounds": {"quick": "hmtx: 1..2 glyphs with symbolic int16 widths, extents and (optionally explicit) side bearings, vertical caret; arbitrary 36-byte hhea + <=8 byte hmtx; head: all fields symbolic (timestamps any int64 second or unset), arbitrary 54 bytes; maxp both versions, arbitrary <=32 bytes; OS/2: all fields symbolic (version 4), arbitrary tables of 68..100 bytes; post header: italic angle any 16.16 value, arbitrary 32..36 bytes",
+               "thorough": "hmtx 3 glyphs / 16 bytes"},
+    "outside": ["caret slope rise/run (Atan2/Sin/Cos are outside the solver fragment): vertical caret only", "glyph counts above 6", "font-level derived fields (FontBBox, xAvgCharWidth, first/last char) and PDF-unit queries: see C01/C15 harnesses where present", "post glyph names (C14)"],
+    "assumptions": ["OS/2 normal form: IsRegular clears IsBold/IsItalic, non-positive XHeight/CapHeight are stored as 0, Unicode range bit 57 follows LastCharIndex==0xFFFF", "a timestamp encoding to 0 (1904-01-01 00:00:00) is read as 'unset'", "xMaxExtent/minRSB definitions checked with lsb = xMin (LSB derived from the extents)"],
+}
